@@ -51,7 +51,13 @@ class Pool:
                 try:
                     proc.stdin.write(json.dumps(task) + "\n")
                     proc.stdin.flush()
-                    timer = threading.Timer(task.get("timeout", self.timeout), proc.kill)
+                    timed_out = []
+
+                    def on_timeout(pr=proc, flag=timed_out):
+                        flag.append(True)
+                        pr.kill()
+
+                    timer = threading.Timer(task.get("timeout", self.timeout), on_timeout)
                     timer.start()
                     try:
                         while True:
@@ -70,9 +76,20 @@ class Pool:
                         timer.cancel()
                 except (BrokenPipeError, OSError):
                     pass
+                if res is None and timed_out and not task.get("_retried"):
+                    # the wall-clock limit says nothing on a loaded machine: one more attempt with a five-fold limit
+                    # before the task counts as hung (a real crash - the process died by itself - is not retried)
+                    try:
+                        proc.kill()
+                    except OSError:
+                        pass
+                    proc = None
+                    q.put(dict(task, _retried=True, timeout=5 * task.get("timeout", self.timeout)))
+                    continue
                 if res is None:
                     rc = proc.poll()
-                    res = {"id": task["id"], "crashed": True, "progress": progress, "returncode": rc}
+                    res = {"id": task["id"], "crashed": True, "progress": progress, "returncode": rc,
+                           "timed_out": bool(timed_out)}
                     try:
                         proc.kill()
                     except OSError:
